@@ -200,45 +200,7 @@ func rulesC05(e *Engine, r *Report) {
 
 	// ---------------------------------------------------------------- R05.4
 	r.Rule("R05.4", "`part already received?` answers yes only (a) for an unknown file whose on-disk companion has equal rename, hash and predecessor and whose recorded ranges contain the queried slice, or (b) for a known, not failed file with equal hash and rename; the descriptor compared is built from the queried part's own getters")
-	if fn := needFn(e, r, "R05.4", "stage.(*Stage).partReceived"); fn != nil {
-		fin := "&new(stage.finalFile)"
-		ex := "call(stage.(*Stage).fromCache)(p0, " + fin + ".path)"
-		cmp := "call(stage.readLocalCompanion)(call(filepath.Join)([p0.rootDir, invoke(sts.Binned.GetName)(p1)]), " + fin + ".name)#0"
-		eq := func(a, b, label string) []L {
-			return []L{C("("+a+" == "+b+")", label), C("("+b+" == "+a+")", label)}
-		}
-		var ls []L
-		ls = append(ls, C("("+ex+" == nil)", "unknown"), C("("+ex+" != nil)", "known"), C("("+ex+".state != "+sc.failed+")", "notFailed"),
-			C("("+cmp+" != nil)", "cmpFound"),
-			C("call(stage.companionPartExists)("+cmp+", invoke(sts.Binned.GetSlice)(p1)#0, invoke(sts.Binned.GetSlice)(p1)#1)", "rangeOnRecord"))
-		ls = append(ls, eq(fin+".renamed", cmp+".Renamed", "cmpRenamed")...)
-		ls = append(ls, eq(fin+".hash", cmp+".Hash", "cmpHash")...)
-		ls = append(ls, eq(fin+".prev", cmp+".Prev", "cmpPrev")...)
-		ls = append(ls, eq(fin+".hash", ex+".hash", "exHash")...)
-		ls = append(ls, eq(fin+".renamed", ex+".renamed", "exRenamed")...)
-		nT := 0
-		for _, rw := range e.returnWorlds(r, "R05.4", fn, labeler(ls...)) {
-			if !rw.W.Has("ret0=true") {
-				continue
-			}
-			nT++
-			a := rw.W.HasAll("unknown", "cmpFound", "cmpRenamed", "cmpHash", "cmpPrev", "rangeOnRecord")
-			b := rw.W.HasAll("known", "notFailed", "exHash", "exRenamed")
-			r.Check(a || b, "R05.4", "stage.(*Stage).partReceived: return true "+rw.W.String(), e.InstrPos(rw.In),
-				"a part is reported as already received although neither a matching companion range nor a matching known file backs it (the sender would skip it)", 1, rw.W.String())
-		}
-		r.Min("R05.4", "return-true path classes", nT, 2)
-		// descriptor fields come from the queried part
-		for fld, want := range map[string]string{
-			"path":    "call(filepath.Join)([p0.rootDir, invoke(sts.Binned.GetName)(p1)])",
-			"renamed": "invoke(sts.Binned.GetRenamed)(p1)", "name": "invoke(sts.Binned.GetName)(p1)",
-			"hash": "invoke(sts.Binned.GetFileHash)(p1)", "prev": "invoke(sts.Binned.GetPrev)(p1)",
-		} {
-			vals := e.fieldStoreVals(fn, "stage.finalFile", fld)
-			r.Check(len(vals) == 1 && vals[0] == want, "R05.4", "stage.(*Stage).partReceived: descriptor."+fld+" ← "+want, e.Pos(fn.Pos()),
-				"the descriptor compared with the record is not built from the queried part: "+strings.Join(vals, " | "), 1, vals...)
-		}
-	}
+	e.checkPartReceived(r, "R05.4", sc)
 	e.checkReceivedLeading(r, "R05.4")
 
 	// ---------------------------------------------------------------- R05.5
@@ -328,6 +290,62 @@ func rulesC05(e *Engine, r *Report) {
 			func(l LabelSet) bool { return !l.Has("evicted") || l.Has("claimUpdated") }, "store to Stage.cacheTime on every path that evicts")
 	}
 	r.Min("R05.8", "functions evicting from the receive cache", nEv, 1)
+	// ---------------------------------------------------------------- R05.9
+	r.Rule("R05.9", "the log refill is skipped only when the cache provably covers the time asked for: buildCache returns without consulting the log only for a zero `from`, or when the cache start time is NON-ZERO and not after `from`; a never-built cache (zero start time, as after a restart) always refills")
+	if fn := needFn(e, r, "R05.9", "stage.(*Stage).buildCache"); fn != nil {
+		var test *ssa.Function
+		for _, cf := range fn.AnonFuncs {
+			if len(cf.Params) == 2 && isBool(cf.Signature.Results().At(0).Type()) {
+				test = cf
+			}
+		}
+		cover := func(l LabelSet) bool {
+			return l.Has("startKnown") && l.HasAny("startBefore", "startEqual", "startNotAfter")
+		}
+		mk := func(recv, t string) Classifier {
+			return labeler(
+				C("!call(time.(Time).IsZero)("+recv+".cacheTime)", "startKnown"),
+				C("call(time.(Time).Before)("+recv+".cacheTime, "+t+")", "startBefore"),
+				C("call(time.(Time).Equal)("+recv+".cacheTime, "+t+")", "startEqual"),
+				C("!call(time.(Time).After)("+recv+".cacheTime, "+t+")", "startNotAfter"),
+				C("call(time.(Time).IsZero)("+t+")", "noTimeAsked"),
+			)
+		}
+		if test != nil {
+			n := 0
+			for _, rw := range e.returnWorlds(r, "R05.9", test, mk("p0", "p1")) {
+				if rw.W.Has("ret0=true") {
+					n++
+					r.Check(cover(rw.W), "R05.9", e.ShortName(test)+": `already covered` "+rw.W.String(), e.InstrPos(rw.In),
+						"the refill from the receive log is skipped although the cache start time may be zero (never built) or after the time asked for: deliveries known only from the log are not recognised", 1, rw.W.String())
+				}
+			}
+			r.Min("R05.9", "`already covered` path classes", n, 1)
+			cl := e.findInstrs(fn, "call("+e.ShortName(test)+")(p0, p1)", false)
+			r.Check(len(cl) == 1, "R05.9", "stage.(*Stage).buildCache: the coverage test is applied to (this stage, the time asked for)", e.Pos(fn.Pos()), "the coverage test is called with other operands", 1)
+		}
+		// returns of buildCache itself that skip Parse
+		cls := both(mk("p0", "p1"), labeler(I("invoke(sts.ReceiveLogger.Parse)(p0.logger, §)", "refilled")))
+		if test != nil {
+			cls = both(cls, labeler(C("call("+e.ShortName(test)+")(p0, p1)", "coveredByTest")))
+		}
+		n := 0
+		for _, rw := range e.returnWorlds(r, "R05.9", fn, cls) {
+			if rw.W.Has("refilled") {
+				continue
+			}
+			n++
+			r.Check(rw.W.Has("noTimeAsked") || rw.W.Has("coveredByTest") || cover(rw.W), "R05.9", fmt.Sprintf("stage.(*Stage).buildCache: return without refill b%d %s", rw.In.Block().Index, rw.W.String()), e.InstrPos(rw.In),
+				"buildCache gives up without reading the log and without the coverage test", 1, rw.W.String())
+		}
+		r.Min("R05.9", "returns of buildCache without a refill", n, 2)
+		st := e.findInstrs(fn, "store(p0.cacheTime = p1)", false)
+		r.Check(len(st) == 1, "R05.9", "stage.(*Stage).buildCache: after a refill the cache start time is the time asked for", e.Pos(fn.Pos()), "the coverage claim is not moved back to `from` after reading the log from there", 1)
+		if len(st) == 1 {
+			e.Guarded(r, "R05.9", "stage.(*Stage).buildCache: the claim moves only after the log was read", fn, only(st[0]), labeler(I("invoke(sts.ReceiveLogger.Parse)(p0.logger, §)", "refilled")),
+				func(l LabelSet) bool { return l.Has("refilled") }, "ReceiveLogger.Parse called first")
+		}
+	}
 }
 
 func nameOr(m map[string]string, k string) string {
@@ -393,5 +411,50 @@ func (e *Engine) checkReceivedLeading(r *Report, rule string) {
 				func(l LabelSet) bool { return l.Has("hit") && !l.Has("miss") }, "partReceived(part) == true on this iteration and no earlier part was missing")
 		})
 		r.Min(rule, "increments of the received count", incs, 1)
+	}
+}
+
+// checkPartReceived: the receiver claims to hold a part only through a
+// matching companion range or a matching known, non-failed file of the SAME
+// hash (shared by C05 and C02).
+func (e *Engine) checkPartReceived(r *Report, rule string, sc stageConsts) {
+	if fn := needFn(e, r, rule, "stage.(*Stage).partReceived"); fn != nil {
+		fin := "&new(stage.finalFile)"
+		ex := "call(stage.(*Stage).fromCache)(p0, " + fin + ".path)"
+		cmp := "call(stage.readLocalCompanion)(call(filepath.Join)([p0.rootDir, invoke(sts.Binned.GetName)(p1)]), " + fin + ".name)#0"
+		eq := func(a, b, label string) []L {
+			return []L{C("("+a+" == "+b+")", label), C("("+b+" == "+a+")", label)}
+		}
+		var ls []L
+		ls = append(ls, C("("+ex+" == nil)", "unknown"), C("("+ex+" != nil)", "known"), C("("+ex+".state != "+sc.failed+")", "notFailed"),
+			C("("+cmp+" != nil)", "cmpFound"),
+			C("call(stage.companionPartExists)("+cmp+", invoke(sts.Binned.GetSlice)(p1)#0, invoke(sts.Binned.GetSlice)(p1)#1)", "rangeOnRecord"))
+		ls = append(ls, eq(fin+".renamed", cmp+".Renamed", "cmpRenamed")...)
+		ls = append(ls, eq(fin+".hash", cmp+".Hash", "cmpHash")...)
+		ls = append(ls, eq(fin+".prev", cmp+".Prev", "cmpPrev")...)
+		ls = append(ls, eq(fin+".hash", ex+".hash", "exHash")...)
+		ls = append(ls, eq(fin+".renamed", ex+".renamed", "exRenamed")...)
+		nT := 0
+		for _, rw := range e.returnWorlds(r, rule, fn, labeler(ls...)) {
+			if !rw.W.Has("ret0=true") {
+				continue
+			}
+			nT++
+			a := rw.W.HasAll("unknown", "cmpFound", "cmpRenamed", "cmpHash", "cmpPrev", "rangeOnRecord")
+			b := rw.W.HasAll("known", "notFailed", "exHash", "exRenamed")
+			r.Check(a || b, rule, "stage.(*Stage).partReceived: return true "+rw.W.String(), e.InstrPos(rw.In),
+				"a part is reported as already received although neither a matching companion range nor a matching known file backs it (the sender would skip it)", 1, rw.W.String())
+		}
+		r.Min(rule, "return-true path classes", nT, 2)
+		// descriptor fields come from the queried part
+		for fld, want := range map[string]string{
+			"path":    "call(filepath.Join)([p0.rootDir, invoke(sts.Binned.GetName)(p1)])",
+			"renamed": "invoke(sts.Binned.GetRenamed)(p1)", "name": "invoke(sts.Binned.GetName)(p1)",
+			"hash": "invoke(sts.Binned.GetFileHash)(p1)", "prev": "invoke(sts.Binned.GetPrev)(p1)",
+		} {
+			vals := e.fieldStoreVals(fn, "stage.finalFile", fld)
+			r.Check(len(vals) == 1 && vals[0] == want, rule, "stage.(*Stage).partReceived: descriptor."+fld+" ← "+want, e.Pos(fn.Pos()),
+				"the descriptor compared with the record is not built from the queried part: "+strings.Join(vals, " | "), 1, vals...)
+		}
 	}
 }
